@@ -4,7 +4,8 @@ SPEC = {
     'coq_dir': 'C19',
     'claimed': False,
     'theorems': ['C19_history_independent_partial', 'C19_validity_history_independent_partial',
-                 'C19_default_config_validity', 'C19_validity_order_independent',
+                 'C19_default_config_validity', 'C19_default_config_exact', 'C19_default_guard_satisfiable',
+                 'C19_validity_order_independent',
                  'C19_possible_results_exact', 'C19_spec_is_descending_id_order', 'C19_cache_capacity_kept',
                  'C19_refuted_cache', 'C19_refuted', 'C19_refuted_error_order',
                  'C19_refuted_dapp_validity_order', 'C19_refuted_pubkey_cache',
